@@ -23,8 +23,8 @@ func runC13(c *Ctx) {
 			req("meets-target@"+entry, entry, "call (types.BlockID).CmpWork(call (types.BlockHeader).ID("+h+"), call (consensus.State).PoWTarget({consensus.State}))", opLT, "const:0", "the header's ID must meet the proof-of-work target"),
 		}
 	}
-	tab := append(hdr("consensus.ValidateHeader", "{types.BlockHeader}"), hdr("consensus.ValidateOrphan", "call (*types.Block).Header({types.Block})")...)
-	tab = append(tab, hdr(VB, "call (*types.Block).Header({types.Block})")...)
+	tab := append(hdr("consensus.ValidateHeader", "{types.BlockHeader}"), hdr("consensus.ValidateOrphan", "call (types.Block).Header({types.Block})")...)
+	tab = append(tab, hdr(VB, "call (types.Block).Header({types.Block})")...)
 	runGuardTable(c, "header-guard", ge, tab)
 	c.Min("header-guard", 12)
 	// reorg rule: "sufficiently heavier" is a strict comparison (an asymmetric relation cannot hold both ways or of a state with itself)
@@ -42,8 +42,8 @@ func runC13(c *Ctx) {
 	pow := map[string]bool{"Index": true, "PrevTimestamps": true, "Depth": true, "ChildTarget": true, "OakTime": true, "OakTarget": true, "TotalWork": true, "Difficulty": true, "OakWork": true}
 	allowed := map[string]string{
 		"consensus.ApplyHeader":            "the one place the proof-of-work state advances",
-		"(*consensus.State).DecodeFrom":    "decoding",
-		"(*consensus.Network).GenesisState": "genesis construction",
+		"(consensus.State).DecodeFrom":    "decoding",
+		"(consensus.Network).GenesisState": "genesis construction",
 	}
 	writers := map[string]bool{}
 	for _, fn := range SortedFuncs(c.P.AllFuncs()) {
@@ -75,7 +75,7 @@ func runC13(c *Ctx) {
 	// ApplyBlock returns ApplyHeader(...)
 	if fn := c.P.Func(CAB); fn != nil {
 		as := ge.ReturnAtoms(fn, 0)
-		ok := len(as) == 1 && mustRe(pat("call consensus.ApplyHeader({consensus.State}, call (*types.Block).Header({types.Block}), {time.Time})")).MatchString(as[0])
+		ok := len(as) == 1 && mustRe(pat("call consensus.ApplyHeader({consensus.State}, call (types.Block).Header({types.Block}), {time.Time})")).MatchString(as[0])
 		c.Check(ok, "headers-equal-blocks", "ApplyBlock-returns-ApplyHeader", c.P.Pos(fn.Pos()), ifElse(ok, "consensus.ApplyBlock returns ApplyHeader(s, b.Header(), targetTimestamp)", "consensus.ApplyBlock returns "+joinShort(as)+": header-only and full-block application can diverge"))
 		// ApplyHeader must come after the non-PoW updates: no store to a State field after the call on the returned value
 		cs := ge.Calls(fn, nil, nil, nil, 0, map[*ssa.Function]int{})
